@@ -1,6 +1,6 @@
 """Which engines decide which property. Shared by ./check and tools/gen_manifest.py."""
 
-ALL_DRIVERS = ["arith", "cross", "crossx", "prim", "primx", "text", "bytes", "wrap"]
+ALL_DRIVERS = ["arith", "cross", "crossx", "prim", "primx", "text", "bytes", "wrap", "trans"]
 
 # drivers that switch on optional features of the subject (built in a separate cargo invocation)
 FEATURE_GROUP = {"bytes": "serde"}
@@ -25,7 +25,44 @@ PRIM_RULE = ("every compiled layout (90 quick: all 8-bit layouts + boundary frac
              "boundary alphabet otherwise; floats: every exponent (f32; f64 thorough, quick: +-140 around the bias and the extremes) x "
              "structured mantissas x both signs, incl. zeros, subnormals, largest finite binade, infinities, NaNs; ")
 
+TRANS_RULE = """type pairs S->D: I9F23, I9F55, I16F48, I32F32, I41F23, I9F119, I40F88, I64F64, I96F32, I105F23 onto themselves, I9F23->{I32F32, I64F64, I9F55, I10F54, I96F32}, I32F32->I64F64, I16F48->I40F88, and for sqrt U9F23, U9F55, U32F32, U9F119, U64F64, U96F32, U105F23, U9F23->U64F64, U32F32->U96F32; operands: boundary alphabet, integers 0..300 and halves, neighbourhoods of 1 and 2, a grid of 2^g values per octave over the whole range of the type (g = 5 quick / 9 thorough; 3 / 7 for 128-bit sources), both signs; thorough: every one of the 2^32 bit patterns of I9F23 and U9F23; """
+TRIG_RULE = ("types I9F23, I9F55, I16F48, I32F32, I41F23, I9F119, I40F88, I64F64, I96F32, I105F23; angles: every multiple of 2^-5 (thorough 2^-10) in [-200, 200] "
+             "([-100, 100] for tan), boundary alphabet inside the range, the neighbourhood (0, +-1, +-2, +-100 ulp, +-2^-m for m = 1..24) of each multiple of pi/2 up "
+             "to 130 pi/2; thorough: every I9F23 angle in the range (3.36e9 for sin and cos, 1.68e9 for tan); ")
+
 PROPS = {
+    "C12": {
+        "title": "Result-returning math functions are total: Ok or Err, never a panic",
+        "stages": [{"driver": "trans"}],
+        "rule": TRANS_RULE + "pow: bases x exponents from thinner grids; powi: bases x {|n| <= 64, +-2^k, +-(2^k+-1), i32::MIN, MIN+1, MAX, MAX-1} under an iteration budget (a call cut by the budget is counted, not judged); " + TRIG_RULE + "a state is one (function, type pair, operand tuple), a transition one call under catch_unwind with the tick budget; judged: no unwinding, Err for sqrt of a negative, log of a non-positive, fractional power of a negative base; tan only where the reference says |tan x| <= 64",
+        "assumptions": ["powi with |n| up to 2^31 is linear in |n| by design; calls that exceed the iteration budget (70 000 quick, 3 000 000 thorough) are cut and reported as unexplored"],
+    },
+    "C13": {
+        "title": "sqrt is accurate to a few units in the last place",
+        "stages": [{"driver": "trans"}],
+        "rule": TRANS_RULE + "oracle: exact integer bracket (R-4)^2 <= X*2^F <= (R+4)^2 on 384-bit integers, sqrt(0) and sqrt(1) exact, result non-negative, Err only for x < 0 or 0 < x < 1 with trunc(2^2F / X) not representable",
+    },
+    "C14": {
+        "title": "log2 and ln are accurate to the destination's resolution",
+        "stages": [{"driver": "trans"}],
+        "rule": TRANS_RULE + "oracle: 256-bit series arithmetic (atanh series; self-tested against f64 libm and identities), f64 libm with a guard band for 32-bit destinations; bounds 8 ulp (log2), 2^-23 |ln x| + 8 ulp (ln), exactness on powers of two, sign rule, Err only for x <= 0 or unrepresentable reciprocal",
+    },
+    "C15": {
+        "title": "exp, pow and powi are accurate wherever they return Ok",
+        "stages": [{"driver": "trans"}],
+        "rule": TRANS_RULE + "pow: bases x exponents (|y| <= 64 and the extremes) from thinner grids; powi: bases x the exponent alphabet of C12; oracle: 256-bit exp/ln series; bounds exactly as stated in the property; negative powi against the truncated reciprocal of the subject's own powi(x, |n|)",
+    },
+    "C16": {
+        "title": "sin, cos and tan are accurate over many periods in every supported type",
+        "stages": [{"driver": "trans"}],
+        "rule": TRIG_RULE + "oracle: 256-bit Taylor series with Machin pi (f64 libm with guard band for I9F23); bounds 2^-16 and range for sin/cos, 2^-14 (1 + tan^2 x) where |tan x| <= 64",
+    },
+    "C17": {
+        "title": "math functions do a bounded amount of work, independent of operand magnitude",
+        "stages": [{"driver": "trans"}],
+        "rule": TRANS_RULE + TRIG_RULE + "plus, for sin/cos/tan, operands over the whole range of each type (far outside |x| <= 200); every call runs with the cfg(substrate_fixed_verif) tick hook: the thread-local loop-iteration counter is reset, the call executed with a budget of 4 x width + 65 (exceeding it unwinds the call), the count read back; judged: count <= 4 x width(destination) + 64; powi excluded",
+        "assumptions": ["every loop body of src/transcendental.rs carries a tick() call (hook commit; a loop added without one is invisible to this check)"],
+    },
     "C18": {
         "title": "Wrapping<F> computes exactly the modulo-2^n result and never panics on overflow",
         "stages": [{"driver": "wrap"}],
@@ -110,6 +147,7 @@ PROPS = {
 }
 
 DRIVER_KIND = {
+    "trans": "Rust; sqrt/log2/ln/exp/pow/powi/sin/cos/tan on 26 type pairs and 10 trig types against integer brackets, f64 libm with guard band and a 256-bit series reference; loop-iteration counts through the tick hook",
     "wrap": "Rust; explicit-state exploration (BFS over the state graph) of Wrapping<F> for all 506 layouts against arithmetic modulo 2^width",
     "bytes": "Rust; SCALE / byte / bit / serde views of all 506 layouts against the little-endian bytes of the bit pattern",
     "text": "Rust; parsing and formatting of all 506 layouts against exact rational/digit models; runtime-selected format specs through &dyn fmt traits",
